@@ -161,6 +161,20 @@ func (r *Report) Finish(verifDir string, meta Meta, seed int64, cmd string) int 
 		}
 		os.WriteFile(violPath, []byte(sb.String()), 0o644)
 	}
+	// the full obligation list (what was analysed), one line per instance
+	{
+		var sb strings.Builder
+		for _, o := range r.Obls {
+			st := "ok"
+			if o.Known {
+				st = "known"
+			} else if !o.OK {
+				st = "FAIL"
+			}
+			fmt.Fprintf(&sb, "%s\t%s\t%s\n", st, o.Pos, o.Key)
+		}
+		os.WriteFile(filepath.Join(evDir, r.Property+".obligations.txt"), []byte(sb.String()), 0o644)
+	}
 	// samples: every failing obligation and up to 40 passing ones
 	var samples []interface{}
 	n := 0
